@@ -55,10 +55,20 @@ Record cobs := {           (* what one filtersFor call showed *)
 
 Record fblock := {         (* what the harness knows about one block of an engine-written file *)
   fb_rows : list str;                 (* the marshaled rows it ingested, in stored order *)
-  fb_entries : list entry3;           (* independent walker output per row *)
-  fb_filters : filters;               (* filters rebuilt independently from those entries *)
-  fb_c : str; fb_sec : str            (* the block's row data bytes and section bytes, cut by cumulative sizes *)
+  fb_entries : list (str * str * str);(* independent walker output per row: fields, tokens, field-tokens, each a
+                                         packed list of 2-byte big-endian indexes into the case's dictionary *)
+  fb_filters : filters                (* filters rebuilt independently from those entries *)
 }.
+
+(* dictionary decoding of packed entry lists *)
+Fixpoint unpack (dict : list str) (p : str) : list str :=
+  match p with
+  | a :: b :: t => nth (N.to_nat (a * 256 + b)) dict [] :: unpack dict t
+  | _ => []
+  end.
+Definition unpack3 (dict : list str) (e : str * str * str) : entry3 :=
+  let '(f, t, ft) := e in (unpack dict f, unpack dict t, unpack dict ft).
+Definition fb_entries3 (dict : list str) (fb : fblock) : list entry3 := map (unpack3 dict) (fb_entries fb).
 
 Inductive caseT :=
 | TScan (data : str) (obs_rows : list str) (obs_ok : bool)
@@ -72,7 +82,7 @@ Inductive caseT :=
 | TCursor (blocks : list blockJ) (rs re target fsize : Z) (order : list nat) (parse_ok : list bool) (obs : list cobs)
 | TReadMeta (file : str) (jd : option metaJ) (dtab : list (str * bool)) (obs_reads : list (Z * Z)) (obs : option (metaJ * Z * filters))
 | TFile (file : str) (jd : option metaJ) (dtab : list (str * bool)) (ztab : list (str * option str))
-        (obs : metaJ) (fsec : str) (ffilters : filters) (fcnt_entries : list entry3) (blocks : list fblock)
+        (obs : metaJ) (ffilters : filters) (dict : list str) (blocks : list fblock)
 | TPoolGet (size cap : Z)
 | TOwn (next : nat) (evs : list oev).
 
@@ -112,15 +122,28 @@ Definition pool_get_ok (size cap : Z) : bool :=
   end.
 
 (* descriptors of a file's blocks as the write-side model builds them from what the harness knows *)
-Definition fb_desc (ob : blockJ) (fb : fblock) : bdesc :=
-  {| d_c := fb_c fb; d_sec := fb_sec fb; d_rds := lenZ (fb_c fb);
-     d_rows := acc_rows (fb_rows fb); d_usize := acc_usize (fb_rows fb); d_comp := b_comp ob;
-     d_hash := crc32c (fb_c fb); d_has_hash := true; d_cnt := counts_from (fb_entries fb) |}.
+(* the file cut by cumulative observed sizes: row data pieces, then section pieces, then the file-level section *)
+Fixpoint cut (file : str) (off : Z) (sizes : list Z) : list str * Z :=
+  match sizes with
+  | [] => ([], off)
+  | n :: t => let '(r, e) := cut file (off + n) t in (slice file off n :: r, e)
+  end.
 
-Definition predicted_meta (obs : metaJ) (fsec : str) (fcnt : list entry3) (blocks : list fblock) : wstate * metaJ :=
-  let descs := map (fun p => fb_desc (fst p) (snd p)) (combine (m_blocks obs) blocks) in
+Definition fb_desc (dict : list str) (x : blockJ * fblock * (str * str)) : bdesc :=
+  let '(ob, fb, (c, sec)) := x in
+  {| d_c := c; d_sec := sec; d_rds := lenZ c;
+     d_rows := acc_rows (fb_rows fb); d_usize := acc_usize (fb_rows fb); d_comp := b_comp ob;
+     d_hash := crc32c c; d_has_hash := true; d_cnt := counts_from (fb_entries3 dict fb) |}.
+
+Definition all_entries (dict : list str) (blocks : list fblock) : list entry3 := flat_map (fb_entries3 dict) blocks.
+
+Definition predicted_meta (file : str) (obs : metaJ) (dict : list str) (blocks : list fblock) : wstate * metaJ * str :=
+  let '(cs, e1) := cut file 0 (map rds (m_blocks obs)) in
+  let '(secs, e2) := cut file e1 (map bfs (m_blocks obs)) in
+  let fsec := slice file e2 (m_ffs obs) in
+  let descs := map (fb_desc dict) (combine (combine (m_blocks obs) blocks) (combine cs secs)) in
   let st := fold_left emit descs ws_init in
-  (st, final_meta st fsec (counts_from fcnt)).
+  (st, final_meta st fsec (counts_from (all_entries dict blocks)), fsec).
 
 Definition mismatch (c : caseT) : bool :=
   match c with
@@ -147,9 +170,9 @@ Definition mismatch (c : caseT) : bool :=
             | Some (m, sz, ff), Some (m', sz', ff') => meta_eqb m m' && (sz =? sz') && filters_eqb ff ff'
             | _, _ => false
             end)
-  | TFile file jd dtab ztab obs fsec ffilt fcnt blocks =>
+  | TFile file jd dtab ztab obs ffilt dict blocks =>
       let '(_, mres) := read_metadata crc32c (dec_of dtab) (fun _ => jd) file in
-      let '(st, pm) := predicted_meta obs fsec fcnt blocks in
+      let '(st, pm, fsec) := predicted_meta file obs dict blocks in
       negb (match mres with Some (m, sz, _) => meta_eqb m obs && (sz =? lenZ file) | None => false end &&
             meta_eqb pm obs &&
             is_prefix (ws_data st ++ ws_region st ++ fsec) file &&
@@ -208,15 +231,16 @@ Definition violates (c : caseT) : bool :=
           let mlen := rd32 (slice file (fsz - 16) 4) in
           negb (sz =? fsz) || negb ((0 <=? m_ffs m) && meta_in_bounds m (fsz - FooterTail - mlen - m_ffs m))
       end
-  | TFile file jd dtab ztab obs fsec ffilt fcnt blocks =>
+  | TFile file jd dtab ztab obs ffilt dict blocks =>
       let fsz := lenZ file in
       let mlen := rd32 (slice file (fsz - 16) 4) in
+      let fsec := slice file (m_roff obs + m_rsize obs) (m_ffs obs) in
       negb (layout_ok fsz mlen obs &&
-            cnt_eqb (m_cnt obs) (counts_from fcnt) &&
+            cnt_eqb (m_cnt obs) (counts_from (all_entries dict blocks)) &&
             ostr_eqb (encode_section crc32c ffilt) (Some fsec) &&
             forallb (fun p => let '(b, fb) := p in
                        b_has_hash b &&
-                       describes crc32c (dec_of dtab) (unz_of ztab) file b (fb_rows fb) (fb_filters fb) (counts_from (fb_entries fb)))
+                       describes crc32c (dec_of dtab) (unz_of ztab) file b (fb_rows fb) (fb_filters fb) (counts_from (fb_entries3 dict fb)))
                     (combine (m_blocks obs) blocks))
   | TPoolGet size cap => cap <? size
   | TOwn next evs =>
